@@ -571,4 +571,72 @@ theorem defragCore_freeCount (cells : List Cell) (rows : List Row) (hlen : cells
   have := hp.length_eq
   omega
 
+/-! ### defrag's block copies only write rows that were in the cache -/
+
+theorem mem_moveRowsFrom (old : List Row) (src dst len i : Nat) (rows : List Row) :
+    ∀ x ∈ moveRowsFrom old src dst len i rows, x ∈ old ∨ x ∈ rows := by
+  induction rows generalizing i with
+  | nil => intro x hx; simp [moveRowsFrom] at hx
+  | cons r rs ih =>
+    intro x hx
+    simp only [moveRowsFrom, List.mem_cons] at hx
+    rcases hx with hx | hx
+    · subst hx
+      split
+      · rcases getD_mem_or old (src + (i - dst)) r with h | h
+        · right; rw [h]; simp
+        · left; exact h
+      · right; simp
+    · rcases ih (i + 1) x hx with h | h
+      · left; exact h
+      · right; simp [h]
+
+theorem mem_moveRows (rows : List Row) (src dst len : Nat) : ∀ x ∈ moveRows rows src dst len, x ∈ rows := by
+  intro x hx
+  rcases mem_moveRowsFrom rows src dst len 0 rows x hx with h | h <;> exact h
+
+theorem fillHole_rows_sub (fix : Bool) (st : DS) (dst s : Nat) : ∀ x ∈ (fillHole fix st dst s).rows, x ∈ st.rows := by
+  intro x hx
+  unfold fillHole at hx
+  simp only at hx
+  split at hx
+  · split at hx
+    · split at hx
+      · exact hx
+      · exact mem_moveRows _ _ _ _ x hx
+    · split at hx
+      · exact hx
+      · exact mem_moveRows _ _ _ _ x hx
+  · exact hx
+
+theorem defragLoop_rows_sub (fix : Bool) (fuel : Nat) (st : DS) (dst src : Nat) :
+    ∀ x ∈ (defragLoop fix fuel st dst src).rows, x ∈ st.rows := by
+  induction fuel generalizing st dst src with
+  | zero => intro x hx; exact hx
+  | succ f ih =>
+    intro x hx
+    unfold defragLoop at hx
+    split at hx
+    · split at hx
+      · simp only at hx
+        split at hx
+        · exact fillHole_rows_sub fix st dst _ x (ih _ _ _ x hx)
+        · exact ih _ _ _ x hx
+      · exact ih _ _ _ x hx
+    · exact hx
+
+/-- defrag's block copies only ever write rows that were in the cache -/
+theorem defragCore_rows_sub (fix : Bool) (cells : List Cell) (rows : List Row) :
+    ∀ x ∈ (defragCore fix cells rows).2, x ∈ rows := by
+  intro x hx
+  unfold defragCore at hx
+  simp only at hx
+  split at hx
+  · exact defragLoop_rows_sub fix _ _ _ _ x (mem_moveRows _ _ _ _ x hx)
+  · exact defragLoop_rows_sub fix _ _ _ _ x hx
+
+theorem eq_of_all_default (l1 l2 : List Row) (hlen : l1.length = l2.length)
+    (h1 : ∀ x ∈ l1, x = default) (h2 : ∀ x ∈ l2, x = default) : l1 = l2 := by
+  rw [List.eq_replicate_iff.mpr ⟨rfl, h1⟩, List.eq_replicate_iff.mpr ⟨rfl, h2⟩, hlen]
+
 end OllamaVerif.Causal
